@@ -114,7 +114,7 @@ func checkC08(c *h.Check) {
 		add(g.id, g.spec)
 	}
 	results := c.JudgeAll(cases)
-	stdCoverage(c, cases, results, "every accepted base program (all DAGs on <=4 nodes, thorough 5, all nodes reachable, node kind/type shape/placement deviations) as is (must be accepted: every item contributes) and extended by one superfluous direct item of each of 10 kinds (must be rejected as unused, nothing written); plus indirect-use positives (struct provider used only via S or only via *S, binding as only consumer of its concrete type, one of several FieldsOf names used, one member of a nested set used). Distinct = distinct rendered source.")
+	stdCoverage(c, cases, results, "every accepted base program (all DAGs on <=4 nodes, thorough 5, all nodes reachable, node kind/type shape/placement deviations) as is (must be accepted: every item contributes) and extended by one superfluous direct item of each of 10 kinds (must be rejected as unused, nothing written); plus indirect-use positives (struct provider used only via S or only via *S, binding as only consumer of its concrete type, one of several FieldsOf names used, one member of a nested set used, a binding whose concrete type is consumed too and visited first). Placements: direct arguments, named set (0-2 extra nesting levels), inline NewSet. Distinct = distinct rendered source.")
 	c.Coverage["model_verdict_classes"] = kinds.summary()
 	sampleCase(c, cases, results)
 	if kinds["model:unused"] < 50 || kinds["model:accept"] < 50 {
@@ -135,6 +135,22 @@ func indirectUseSpecs() []specCase {
 			spec := g
 			_ = spec
 			out = append(out, specCase{fmt.Sprintf("C08/indirect/fieldsof-two-names/ptr=%d/used=%d", ptr, used), fieldsTwoNames(ptr == 1, used)})
+		}
+	}
+	// a binding whose concrete type is also consumed, visited in either order, at several nesting depths
+	for conc := 0; conc < 2; conc++ {
+		for depth := 0; depth < 3; depth++ {
+			for order := 0; order < 3; order++ {
+				for nC := 1; nC <= 2; nC++ {
+					conc, depth, order, nC := conc, depth, order, nC
+					g := &GraphSpec{}
+					g.custom = func(b *ir.Builder) *ir.Program {
+						return bindProgram(0, 1, conc*0+1, 0, 1, nC, false, depth, order)
+					}
+					_ = conc
+					out = append(out, specCase{fmt.Sprintf("C08/indirect/bind-and-concrete/conc=%d/depth=%d/order=%d/nC=%d", conc, depth, order, nC), g})
+				}
+			}
 		}
 	}
 	return out
